@@ -5,10 +5,10 @@ package main
 
 import (
 	"fmt"
-	"sync"
 	"math/bits"
 	"sort"
 	"strings"
+	"sync"
 )
 
 type Op int
